@@ -590,25 +590,36 @@ std::string Circuit::report() const {
   return ss.str();
 }
 
+namespace {
+/**
+ * @brief Mark the circuit as being in use for the duration of a placement
+ * call, including when the call ends with an exception
+ */
+struct InUseGuard {
+  explicit InUseGuard(bool &flag) : flag_(flag) { flag_ = true; }
+  ~InUseGuard() { flag_ = false; }
+  InUseGuard(const InUseGuard &) = delete;
+  InUseGuard &operator=(const InUseGuard &) = delete;
+  bool &flag_;
+};
+}  // namespace
+
 void Circuit::placeGlobal(const ColoquinteParameters &params,
                           const std::optional<PlacementCallback> &callback) {
-  isInUse_ = true;
+  InUseGuard guard(isInUse_);
   GlobalPlacer::place(*this, params, callback);
-  isInUse_ = false;
 }
 
 void Circuit::legalize(const ColoquinteParameters &params,
                        const std::optional<PlacementCallback> &callback) {
-  isInUse_ = true;
+  InUseGuard guard(isInUse_);
   DetailedPlacer::legalize(*this, params, callback);
-  isInUse_ = false;
 }
 
 void Circuit::placeDetailed(const ColoquinteParameters &params,
                             const std::optional<PlacementCallback> &callback) {
-  isInUse_ = true;
+  InUseGuard guard(isInUse_);
   DetailedPlacer::place(*this, params, callback);
-  isInUse_ = false;
 }
 
 long long Circuit::computeRowPlacementArea(double rowSideMargin) const {
